@@ -11,6 +11,7 @@ def build(u):
     u.ghost_callees["m:send"] = ("Tracked(g)", r"^self\s*\.\s*(payment_ready|fail_requested)$")
     common_head(u)
     u.spec("failmsg_spec.rs", shared=True)
+    u.spec("messages_ctor.rs", shared=True)
     u.spec("fee_spec.rs", shared=True)
     u.spec("fee.rs", shared=True)
     u.spec("paystate_shared.rs", shared=True)
